@@ -8,4 +8,4 @@ for c in "$@"; do
   rc=$?
   echo "$(basename $P .diff) $c exit=$rc $(tail -1 /tmp/benign_$(basename $P .diff)_$c.log | cut -c1-110)"
 done
-git -C /repo checkout -- .
+git -C /repo checkout -- . && git -C /repo clean -fdq -- src test
